@@ -62,7 +62,8 @@ Fixpoint fpow_pos (a : Z) (e : positive) : Z :=
 Definition fpow (a e : Z) : Z := match e with Zpos q => fpow_pos a q | _ => 1 end.
 Definition finv (a : Z) : Z := fpow a (P - 2).
 (* twist.go twistB = 3/xi, xi = i + 3 :  3 * (3 - i) / 10 *)
-Definition twistB : fp2 := (fmul (fsub 0 3) (finv 10), fmul 9 (finv 10)).
+Definition twistB_expr : fp2 := (fmul (fsub 0 3) (finv 10), fmul 9 (finv 10)).
+Definition twistB : fp2 := Eval vm_compute in twistB_expr.
 Definition on_twist (x y : fp2) : bool := f2eqb (f2mul y y) (f2add (f2mul (f2mul x x) x) twistB).
 
 (* the Go-side value of a G1 / G2 variable *)
